@@ -29,53 +29,39 @@ def invocations():
 
 
 def _units(name, key):
+    ident = name.lower()          # identifier of the hoisted functions (the key literal need not be one)
     inst = [('R12', r'\$type_name\b', name, '+')]
     inst0 = [('R12', r'\$type_name\b', name, '*'), ('R12', r'\$qualifier_key\b', '"%s"' % key, '*'), ('R12', r'\$crate\b', 'crate', '*')]
     u = [
         dict(id='T.wk.%s' % name, kind='struct', name='$type_name', file=W, rw=inst),
         dict(id='U-wk.%s.as_ref' % name, file=W, fn='as_ref', ctx=r"impl<'a> AsRef<str> for \$type_name<'a>", properties=['C06', 'C11'],
-             sig_rw=[('R2', r'fn as_ref\(&self\) -> &str', "fn wk_%s_as_ref<'a>(this: &%s<'a>) -> &'a str" % (key, name), 1)],
+             sig_rw=[('R2', r'fn as_ref\(&self\) -> &str', "fn wk_%s_as_ref<'a>(this: &%s<'a>) -> &'a str" % (ident, name), 1)],
              rw=[('R2', r'\bself\b', 'this', '+')] + inst0,
              contract='    ensures r@ == this.0@'),
         dict(id='U-wk.%s.into_str' % name, file=W, fn='from', ctx=r"impl<'a> From<\$type_name<'a>> for &'a str", properties=['C06', 'C11'],
-             sig_rw=[('R2', r"fn from\(value: \$type_name<'a>\) -> Self", "fn wk_%s_into_str<'a>(value: %s<'a>) -> &'a str" % (key, name), 1)],
+             sig_rw=[('R2', r"fn from\(value: \$type_name<'a>\) -> Self", "fn wk_%s_into_str<'a>(value: %s<'a>) -> &'a str" % (ident, name), 1)],
              rw=inst0,
              contract='    ensures r@ == value.0@'),
         dict(id='U-wk.%s.from_str' % name, file=W, fn='from', ctx=r"impl<'a> From<&'a str> for \$type_name<'a>", properties=['C06', 'C11'],
-             sig_rw=[('R2', r"fn from\(value: &'a str\) -> Self", "fn wk_%s_from_str<'a>(value: &'a str) -> %s<'a>" % (key, name), 1)],
+             sig_rw=[('R2', r"fn from\(value: &'a str\) -> Self", "fn wk_%s_from_str<'a>(value: &'a str) -> %s<'a>" % (ident, name), 1)],
              rw=inst,
              contract='    ensures r.0@ == value@'),
         # `Self::from(<&'a str>::from(value))`: the inner call is the unit above (R2 name), the outer one `SmallString::from(&str)`
         dict(id='U-wk.%s.into_string' % name, file=W, fn='from', ctx=r"impl<'a> From<\$type_name<'a>> for \$crate::SmallString", properties=['C06', 'C11'],
-             sig_rw=[('R2', r"fn from\(value: \$type_name<'a>\) -> Self", "fn wk_%s_into_string<'a>(value: %s<'a>) -> SmallString" % (key, name), 1)],
-             rw=[('R2', r"Self::from\(<&'a str>::from\(value\)\)", 'SmallString::from(wk_%s_into_str(value))' % key, 1)] + inst0,
+             sig_rw=[('R2', r"fn from\(value: \$type_name<'a>\) -> Self", "fn wk_%s_into_string<'a>(value: %s<'a>) -> SmallString" % (ident, name), 1)],
+             rw=[('R2', r"Self::from\(<&'a str>::from\(value\)\)", 'SmallString::from(wk_%s_into_str(value))' % ident, 1)] + inst0,
              begin='    proof { axiom_string_from(); }',
              contract='    ensures r@ == value.0@'),
         dict(id='U-wk.%s.deref' % name, file=W, fn='deref', ctx=r"impl<'a> ::std::ops::Deref for \$type_name<'a>", properties=['C06', 'C11'],
-             sig_rw=[('R2', r'fn deref\(&self\) -> &str', "fn wk_%s_deref<'a>(this: &%s<'a>) -> &'a str" % (key, name), 1)],
+             sig_rw=[('R2', r'fn deref\(&self\) -> &str', "fn wk_%s_deref<'a>(this: &%s<'a>) -> &'a str" % (ident, name), 1)],
              rw=[('R2', r'\bself\b', 'this', '+')] + inst0,
              contract='    ensures r@ == this.0@'),
     ]
     return u
 
 
-def _key_unit(invs):
-    # the KEY constants: `const KEY: &'static str = $qualifier_key;` instantiated per invocation; what the typed accessors of
-    # `Qualifiers` need of them (qual group: `valid_key(Q::KEY@)`, lower-case) is stated and proved here per type
-    lines = ['// R12: `impl KnownQualifierKey for $type_name { const KEY = $qualifier_key }` instantiated per invocation (literals copied from the invocation)']
-    for name, key in invs:
-        lines.append('pub open spec fn wk_key_%s() -> Seq<char> { "%s"@ }' % (key, key))
-    lines.append('pub proof fn lemma_wk_keys_valid()\n    ensures')
-    for name, key in invs:
-        lines.append('        valid_key(wk_key_%s()), lower_ascii_seq(wk_key_%s()) == wk_key_%s(),' % (key, key, key))
-    lines.append('{')
-    for name, key in invs:
-        lines.append('    reveal_strlit("%s");' % key)
-        lines.append('    assert(wk_key_%s().len() == %d) by { reveal_strlit("%s"); }' % (key, len(key), key))
-        lines.append('    assert(lower_ascii_seq(wk_key_%s()) =~= wk_key_%s());' % (key, key))
-    lines.append('}')
-    return dict(id='theory.wk_keys', kind='raw', text='\n'.join(lines) + '\n')
-
+# The KEY constants are not given a contract: no property demands that a well-known key be valid or lower-case (an invalid KEY only
+# makes the typed accessors report `absent` / refuse, which C11 allows), so an obligation about them could only raise false alarms.
 
 _INV = invocations()
 
